@@ -185,6 +185,10 @@ theorem nchangeState_sil (hC : NoCmds sc) (scope : Scope) (x : Ctx) (dest : SPat
       have q2 : Adds ts [] _ s' := enterAll_sil sub sc cfg hC x _ _ s' h1
       exact q0.sil_r (q1.sil_r ((Adds.of_glog (s := s1) (s' := { s1 with conf := r.tree }) rfl).sil_r q2))
 
+theorem nfinalStage_sil (hC : NoCmds sc) (scope : Scope) (x : Ctx) (dest : Option SPath) (conf0 : Forest) (s s' : NSt)
+    (h : (nfinalStage sub sc cfg scope x dest conf0 s).state? = some s') : Adds ts [] s s' :=
+  Adds.of_view (nfinalStage_view sub sc cfg hC scope x dest conf0 s s' h)
+
 /-- `Transition.execute` for `tr` opens exactly one offer, executed iff it returns `True` -/
 theorem nexecute_post2 (hC : NoCmds sc) (scope : Scope) (x : Ctx) (tr : TRef) (t : NTrans) (s : NSt) :
     Post (fun b s' => Adds ts [off ts tr b] s s') (fun s' => ∃ b, Adds ts [off ts tr b] s s')
@@ -221,6 +225,10 @@ theorem nexecute_post2 (hC : NoCmds sc) (scope : Scope) (x : Ctx) (tr : TRef) (t
   refine Post.bind (Post.of_state h5) (fun s' h => ⟨true, a4.sil_r h⟩) ?_
   intro _ s5 h5'
   have a5 := a4.sil_r h5'
+  refine Post.bind (Post.of_state (nfinalStage_sil (ts := ts) sub sc cfg hC scope x _ _ _))
+    (fun s' h => ⟨true, a5.sil_r h⟩) ?_
+  intro _ s5 h5''
+  have a5 := a5.sil_r h5''
   refine Post.bind (Post.of_state (ncallbacks_sil (ts := ts) sub sc cfg hC _ x _ _))
     (fun s' h => ⟨true, a5.sil_r h⟩) ?_
   intro _ s6 h6
@@ -314,6 +322,14 @@ theorem nchangeState_exsub (hC : NoCmds sc) (scope : Scope) (x : Ctx) (dest : SP
       have e2 := enterAll_exited sub sc cfg hC x _ _ s' h1
       exact q0.trans ((ExSub.of_eq e1).trans (ExSub.of_eq e2))
 
+theorem nfinalStage_exited (hC : NoCmds sc) (scope : Scope) (x : Ctx) (dest : Option SPath) (conf0 : Forest) (s s' : NSt)
+    (h : (nfinalStage sub sc cfg scope x dest conf0 s).state? = some s') : s'.exited = s.exited := by
+  rcases nfinalStage_cases sub sc cfg scope x dest conf0 s with h1 | ⟨cbs, h1⟩ | ⟨e, _, h1⟩ | h1 <;> rw [h1] at h
+  · simp only [Res.state?, Option.some.injEq] at h; subst h; rfl
+  · exact ncallbacks_exited sub sc cfg hC _ x cbs s s' h
+  · simp only [Res.state?, Option.some.injEq] at h; subst h; rfl
+  · simp [Res.state?] at h
+
 theorem nexecute_exsub (hC : NoCmds sc) (scope : Scope) (x : Ctx) (tr : TRef) (t : NTrans) (s s' : NSt)
     (h : (nexecute sub sc cfg scope x tr t s).state? = some s') : ExSub s s' := by
   unfold nexecute at h
@@ -346,6 +362,9 @@ theorem nexecute_exsub (hC : NoCmds sc) (scope : Scope) (x : Ctx) (tr : TRef) (t
   rcases bind_state h with ⟨e, he⟩ | ⟨_, s5, he, h⟩
   · exact q4.trans (h5 _ (congrArg Res.state? he))
   have q5 := q4.trans (h5 s5 (congrArg Res.state? he))
+  rcases bind_state h with ⟨e, he⟩ | ⟨_, s5', he, h⟩
+  · exact q5.trans (ExSub.of_eq (nfinalStage_exited sub sc cfg hC scope x _ _ s5 _ (by rw [he]; rfl)))
+  have q5 := q5.trans (ExSub.of_eq (nfinalStage_exited sub sc cfg hC scope x _ _ s5 s5' (by rw [he]; rfl)))
   rcases bind_state h with ⟨e, he⟩ | ⟨_, s6, he, h⟩
   · exact q5.trans (cb _ _ _ _ (by rw [he]; rfl))
   have q6 := q5.trans (cb _ _ _ s6 (by rw [he]; rfl))
@@ -1189,6 +1208,11 @@ theorem nchangeState_fr (hwf : cfg.states.WF = true) (hC : NoCmds sc) (x : Ctx) 
         (enterAll_frx sub sc cfg hC x _ _ s' h1).fr htc htl (by simp)
       exact f0.trans (f1.trans (f2.trans f3))
 
+theorem nfinalStage_frx (hC : NoCmds sc) (X : List SPath) (scope : Scope) (x : Ctx) (dest : Option SPath) (conf0 : Forest)
+    (s s' : NSt) (h : (nfinalStage sub sc cfg scope x dest conf0 s).state? = some s') : FrX X s s' :=
+  FrX.of_eq (nfinalStage_view sub sc cfg hC scope x dest conf0 s s' h)
+    (nfinalStage_exited sub sc cfg hC scope x dest conf0 s s' h)
+
 /-- `Transition.execute` of a machine-level transition whose source has not been exited -/
 theorem nexecute_fr (hwf : cfg.states.WF = true) (hC : NoCmds sc) (x : Ctx) (tr : TRef) (t : NTrans) (s : NSt)
     (hc : ConfOK cfg.states s.conf = true) (hl : s.conf.len = 1)
@@ -1233,6 +1257,9 @@ theorem nexecute_fr (hwf : cfg.states.WF = true) (hC : NoCmds sc) (x : Ctx) (tr 
   refine Post.bind (Post.of_state h5) (fun s' h => f4.trans h) ?_
   intro _ s5 h5'
   have f5 := f4.trans h5'
+  refine Post.bind (Post.of_state (nfinalStage_frx sub sc cfg hC [] cfg.root x _ _ _)) (fun s' h => cbf _ _ f5 h) ?_
+  intro _ s5 h5''
+  have f5 := cbf _ _ f5 h5''
   refine Post.bind (Post.of_state (ncallbacks_frx sub sc cfg hC [] _ x _ _)) (fun s' h => cbf _ _ f5 h) ?_
   intro _ s6 h6
   have f6 := cbf _ _ f5 h6
